@@ -639,5 +639,34 @@ def unshow(v):
     return '(0 - %s)' % v[1:] if re.match(r'-\d+$', v) else v
 
 
-STANDINS = [standin_semantics_table, standin_select_matrix, standin_format_counts, standin_self_copies, standin_self_copies_build, standin_cast_values,
+def standin_format_expr_groups(tier, seed):
+    """expression templates: an unescaped `@` starts an embedded expression only together with its `{ ... }` group (braces nest); an `@`
+    without a group holds no expression and the template is refused (reference: the expression is written `@{...}`)."""
+    ctxs = [('let x = %s;', ''), ('let f = func (v) => %s;\nlet x = f(3);', 'v'), ('let l = map(func (v) => %s, [3]);\nlet x = l.0;', 'v')]
+    good = [('"v=@{item}"', 'v=3'), ('"v=@{ {a = item}.a }!"', 'v=3!'), ('"@{item}@{item + 1}"', '34'), ('"\\\\@{item} @{item}"', '@{item} 3'),
+            ('"@{ {a = {b = item}}.a.b }|@{[item, 0].0}"', '3|3'), ('"}@{item}{"', '}3{'), ('""', ''), ('"no expression"', 'no expression')]
+    bad = ['"cost: @item"', '"n=@item + 1"', '"@"', '"a@ b"', '"@{item} and @item"', '"@ {item}"', '"@(item)"', '"tail @"']
+    cs = []
+    for tmpl, arg0 in ctxs:
+        arg = arg0 or '3'
+        for t, exp in good:
+            cs.append((tmpl % ('%s %% %s' % (t, arg)), exp))
+        for t in bad:
+            cs.append((tmpl % ('%s %% %s' % (t, arg)), None))
+    progs = [c[0] + ('' if c[1] is None else '\nlet chk = (x == %s) || fail "PINNED-VALUE-DIFFERS";' % X.cshow(c[1])) for c in cs]
+    bound = ('%d expression-format programs: %d well-formed templates (plain, nested braces, two groups, escaped `@`, stray braces outside a group, no expression) with the value pinned '
+             'and %d templates whose unescaped `@` has no `{..}` group (must be a build error), each at top level, in a function body and in a map callback; through eval_string and `ucg build`'
+             % (2 * len(cs), len(good), len(bad)))
+    for mode in ('eval', 'buildfile'):
+        res = R.driver(mode, progs)
+        for (prog, exp), p, (st, out) in zip(cs, progs, res):
+            if (exp is None) != (st != 'OK'):
+                want = 'a build error (an `@` without a brace group)' if exp is None else 'x == %s' % X.cshow(exp)
+                return dict(name='format_expr_groups', bound=bound, cases=2 * len(cs), status='violation',
+                            detail='`%s`: expected %s, observed %s %s' % (prog.replace('\n', ' '), want, st, out[:200].replace('\n', ' ')),
+                            input=dict(source=p, expected=want, observed='%s %s' % (st, out[:300]), how=HOW[mode]))
+    return dict(name='format_expr_groups', bound=bound, cases=2 * len(cs), status='ok')
+
+
+STANDINS = [standin_semantics_table, standin_select_matrix, standin_format_counts, standin_format_expr_groups, standin_self_copies, standin_self_copies_build, standin_cast_values,
             X.standin_closure_cases_eval, X.standin_closure_prefixes]
